@@ -98,3 +98,24 @@ def make_gridded(world, rates=None, name='simfore'):
                          magnitudes=numpy.array(world['mags']['edges'], dtype=int if world['mags'].get('int') else float),
                          name=None if world.get('unnamed') else name)
     return fc
+
+
+def write_world_dat(path, world):
+    """CSEP gridded-forecast .dat file of a literal world (cells in world order; flag 0 for masked cells)."""
+    dm = world['mags']['dm']
+    dh = world['region']['dh']
+    lines = []
+    mask = world['region'].get('mask') or [1] * len(world['region']['origins'])
+    for o, row, fl in zip(world['region']['origins'], world['rates'], mask):
+        for k, m0 in enumerate(world['mags']['edges']):
+            lines.append('%r %r %r %r 0.0 30.0 %r %r %r %d' % (o[0], gen.dec(o[0] + dh), o[1], gen.dec(o[1] + dh), m0,
+                                                             gen.dec(m0 + dm, 4), row[k], fl))
+    with open(path, 'w') as f:
+        f.write('\n'.join(lines) + '\n')
+
+
+def load_world_dat(path, world):
+    import csep
+    write_world_dat(path, world)
+    return csep.load_gridded_forecast(path, start_date=utc(world['start_ms']).replace(tzinfo=None),
+                                      end_date=utc(world['end_ms']).replace(tzinfo=None))
